@@ -106,4 +106,9 @@ def memoTables : List (String × String) := [
 def memoReprChecked : Bool := true
 def memoIdPinned : Bool := true
 
+/-- how sanify_hint_child combines HintTreeCode.is_check_expr_cacheable with a child's flag: "and" | "last" | "unknown" -/
+def memoTreeFlag : String := "and"
+/-- every store into _HINT_CONF_TO_CHECK_EXPR / the checker tables is guarded by an `if` on that flag -/
+def memoCtxStoresGuarded : Bool := true
+
 end BearVerif.Extracted
